@@ -173,6 +173,29 @@ check("C18", "exploration",
       "seeded exploration (3000 quick / 20000 thorough cases), models with <= 4 variables and degree <= 3, integer / half-integer coefficients (exact arithmetic); trusted: TLC, the record encoder; raw dicts that repeat a label inside a key only with domain values (no agreed meaning otherwise)",
       "real calls recorded; pinned results compared by TLC with the TLA+ definition", "DESIGN 3 C18")
 
+check("C10", "exploration",
+      "spec/Problems.tla defines, from each class's problem statement and independently of the encoder, Decode / Feasible / Cost / Opt "
+      "for SetCover, VertexCover, BILP, JobSequencing, GraphPartitioning, NumberPartitioning and AlternatingSectorsChain. Seeded "
+      "instances (default weights and weights strictly above the documented threshold, log_trick both ways) are built with the real "
+      "classes; TLC judges the recorded convert_solution / is_solution_valid tables over all assignments of the problem variables "
+      "(boolean and spin, list / dict, ancillas irrelevant) and evaluates the terms of to_qubo()/to_quso() on EVERY assignment of all "
+      "formulation variables: nothing lies below B*Opt, some state attains it and decodes to a feasible optimal solution, with strict "
+      "weights every ground state does; problem-specific and inherited solve_bruteforce are feasible and optimal (all_solutions: exactly "
+      "the optima). Ground states are computed by TLC, never by the repository's solver.",
+      "small instances only (encodings with <= 10 variables quick, 12 thorough; ~110 / 700 instances); weighted GraphPartitioning and "
+      "SetCover instances beyond half-integer weights are not generated; trusted: TLC, the per-class decoders of the harness (which only "
+      "translate the implementation's output into index sets)",
+      "problem semantics written in TLA+; real encodings evaluated by TLC over all assignments", "DESIGN 3 C10")
+check("C16", "exploration",
+      "Design: the transcribed penalties of Constraints.tla are linear in the weight (LamLinear, TLC, every polynomial over two labels). "
+      "Code: seeded scenarios (comparison constraints of all six relations incl. special shapes / bounds / log_trick, the sixteen gate "
+      "constraints, and to_qubo/quso/pubo/puso with a symbolic penalty) are built three ways - with a sympy Symbol, then subs(symbol -> c), "
+      "and directly with c in {1,2,3,1/2}; spec/CheckSubs.tla (TLC) asserts: substituted = direct (terms pinned), same class, same "
+      "recorded constraints, the symbolic coefficients (affine pairs c0 + c1*lam extracted with sympy) evaluate at c to the direct model, "
+      "and subs left the symbolic model unchanged.",
+      "500 quick / 4000 thorough scenarios over <= 4 labels; models whose coefficients (not weights) are symbolic are not generated",
+      "real models built symbolically and numerically; equality decided by TLC on exact rational records", "DESIGN 3 C16")
+
 
 def build():
     props = [json.loads(l)["id"] for l in open(os.path.join(VERIF, "properties.jsonl"))]
